@@ -2,8 +2,14 @@
 
 use crate::monitor::Ctx;
 
+pub mod common;
 pub mod c01;
 pub mod c02;
+pub mod c03;
+pub mod c04;
+pub mod c12;
+pub mod c13;
+pub mod c19;
 pub mod c10;
 pub mod c18;
 pub mod c20;
@@ -12,7 +18,12 @@ pub fn registry() -> Vec<(&'static str, fn(&mut Ctx))> {
     vec![
         ("C01", c01::run as fn(&mut Ctx)),
         ("C02", c02::run),
+        ("C03", c03::run),
+        ("C04", c04::run),
         ("C10", c10::run),
+        ("C12", c12::run),
+        ("C13", c13::run),
+        ("C19", c19::run),
         ("C18", c18::run),
         ("C20", c20::run),
     ]
